@@ -94,7 +94,7 @@ func boundaryPool() []V {
 		vi(0), vi(1), vi(-1), vi(2), vi(7), vi(-8), vi(63), vi(64), vi(minInt), vi(maxInt),
 		vf(0), vf(math.Copysign(0, -1)), vf(0.5), vf(1), vf(-1.5), vf(2.5), vf(1e308), vf(9.223372036854775808e18),
 		vf(math.Inf(1)), vf(math.Inf(-1)), vf(math.NaN()),
-		vs(""), vs("0"), vs("a"), vs("b"), vs("1"), vs("10"), vs("9"), vs("1.5"), vs("-1"), vs("1e3"), vs(" 1"), vs("abc"),
+		vs(""), vs("0"), vs("a"), vs("A"), vs("ab"), vs("b"), vs("1"), vs("10"), vs("9"), vs("1.5"), vs("-1"), vs("1e3"), vs(" 1"), vs("abc"),
 		vb(true), vb(false), vn(),
 		va(0), va(3), {K: "o"}, {K: "c"},
 	}
